@@ -10,6 +10,7 @@ import (
 	"github.com/internetarchive/Zeno/internal/pkg/archiver"
 	"github.com/internetarchive/Zeno/internal/pkg/config"
 	"github.com/internetarchive/Zeno/internal/pkg/postprocessor"
+	"github.com/internetarchive/Zeno/internal/pkg/postprocessor/domainscrawl"
 	"github.com/internetarchive/Zeno/internal/pkg/preprocessor"
 	"github.com/internetarchive/Zeno/pkg/models"
 )
@@ -45,11 +46,14 @@ type Result struct {
 // and not handed over when the hop limit forbids it. With --disable-html-tag a the
 // property is silent (the tag exception is worded for assets): no demand. Anchors are
 // only enumerated on the page itself (depth 0).
-func demand(cd carrierDef, s Settings) (string, string) {
+func demand(cd carrierDef, s Settings, form string) (string, string) {
 	if cd.Kind == "outlink" {
+		onPageHost := form != "abs-http" && form != "abs-https" && form != "scheme-rel"
 		switch {
 		case s.Depth != 0 || s.Disable == "a":
 			return "", ""
+		case s.DC == "site" && onPageHost:
+			return "must", "" // matches --domains-crawl: queued whatever the hop counts are
 		case s.PageHops < s.MaxHops:
 			return "must", ""
 		}
@@ -94,6 +98,17 @@ func observe(c Case, doc string) (assets, outlinks []string, note string) {
 		cfg.DisableHTMLTag = []string{s.Disable}
 	}
 	config.VerifSet(cfg)
+	domainscrawl.Reset()
+	switch s.DC {
+	case "site":
+		if err := domainscrawl.AddElements([]string{pageHost}); err != nil {
+			panic(err)
+		}
+	case "other":
+		if err := domainscrawl.AddElements([]string{"elsewhere.example"}); err != nil {
+			panic(err)
+		}
+	}
 
 	pageURL := c.Scheme + "://" + pageHost + pagePath
 	page := newArchived(pageURL, s.PageHops, "text/html; charset=utf-8", doc, s)
@@ -196,7 +211,7 @@ func evaluate(c Case, verbose bool) (string, []Result) {
 	for _, r := range refs {
 		cd := carrierByName(c.Plants[r.Plant].Carrier)
 		x := Result{Plant: r.Plant, Slot: r.Slot, Carrier: cd.Name, Ref: r.Text, Want: r.Want}
-		x.Demand, x.Reason = demand(cd, c.Set)
+		x.Demand, x.Reason = demand(cd, c.Set, c.Plants[r.Plant].Form)
 		observed := assets
 		what := "asset"
 		if cd.Kind == "outlink" {
